@@ -242,10 +242,10 @@ PROPS = {
         'technique': 'reference-model monitor for inheritance: unique sentinel tokens in every block body make the rendered text the resolution trace; model resolver (most-derived definition, super() to the nearest defining ancestor) vs real renders and render_block',
         'claim': 'Chains of 1-8 templates; per level a random subset of 6 block names nested up to 3 deep, inside filter sections and set-blocks, child blocks introduced inside overridden blocks, ancestors that skip a block, super() at several levels, super() without any ancestor definition (must be an error), '
                  'orphan top-level child blocks (must be rejected), shapes that recurse without bound (must be an error), registered as one shuffled batch, one call per template, a batch followed by re-adding a middle template, a batch in which one template first extends a decoy root and is then re-registered under its real parent, or (with a fallback prefix) under a decoy root that the real root, registered last, shadows. Every leaf of every chain is rendered, directly and through a template that includes it, and compared; '
-                 'render_block(t, b) is compared with the text the model attributes to b for every block the full render reaches.',
+                 'render_block(t, b) is compared with the text the model attributes to b for every block the full render reaches. One case in 32 is a general generated program (variables, loops, captures, includes and components inside blocks, children calling super()) whose block bodies carry start/end marks: render_block must return exactly the marked stretch of the full render.',
         'note': 'block text is compared before enclosing filter sections transform it (what the block itself writes); renders run in a supervised child process',
         'rule': "one evaluation = one registration, render or render_block; a cell = (chain length, leaf level, block nesting, number of super() calls, blocks inside captures or not, model outcome)",
-        'must_observe': ['leaf_renders_compared', 'block_renders_compared', 'orphan_block_sets', 'both_refuse', 'chains_reparented_after_registration', 'included_leaves_compared'],
+        'must_observe': ['leaf_renders_compared', 'block_renders_compared', 'orphan_block_sets', 'both_refuse', 'chains_reparented_after_registration', 'included_leaves_compared', 'marked_blocks_compared'],
     },
     'C05': {
         'scale': {'quick': 2, 'thorough': 10},
